@@ -580,7 +580,8 @@ func finalizeOutboundListeners(lb *ListenerBuilder, listenerMap map[listenerKey]
 		l := buildListenerFromEntry(lb, le, fallthroughNetworkFilters)
 		listeners = append(listeners, l)
 	}
-	return listeners
+	// listenerMap is a map: keep the order of the listeners stable.
+	return slices.SortBy(listeners, func(l *listener.Listener) string { return l.Name })
 }
 
 func buildListenerFromEntry(builder *ListenerBuilder, le *outboundListenerEntry, fallthroughNetworkFilters []*listener.Filter) *listener.Listener {
